@@ -103,3 +103,50 @@ def scd_z3(pos, neg):
             opp = z3.Or(z3.And(pos[m], neg[k]), z3.And(neg[m], pos[k]))
             terms.append(z3.If(same, s, z3.If(opp, -s, z3.RealVal(0))))
     return (z3.Sum(terms) if len(terms) > 1 else (terms[0] if terms else z3.RealVal(0))), terms
+
+
+# ---------------------------------------------------------------- documented delta-max candidate family
+def deltamax_family(npos, nneg, n):
+    """largest delta among the documented family of maximally segregated arrangements.
+    Returns (max over the family [Fraction], list of maxima that are acceptable where the documentation is ambiguous)."""
+    n0 = n - npos - nneg
+    P, M, Z = 1, -1, 0
+
+    def d(pattern):
+        return delta_of_pattern(pattern)
+    if npos + nneg == 0:
+        return F(0), [F(0)]
+    if npos == 0 or nneg == 0:
+        c = P if nneg == 0 else M
+        nc = npos + nneg
+        # the minority block slid through the majority
+        slide_charged = [d([Z] * k + [c] * nc + [Z] * (n0 - k)) for k in range(0, n0 + 1)]
+        slide_neutral = [d([c] * k + [Z] * n0 + [c] * (nc - k)) for k in range(0, nc + 1)]
+        if n0 > nc:
+            return max(slide_charged), [max(slide_charged)]
+        if n0 < nc:
+            return max(slide_neutral), [max(slide_neutral)]
+        return max(slide_neutral), [max(slide_neutral), max(slide_charged)]      # equal blocks: either may slide
+    if n0 == 0:
+        if npos > nneg:
+            c = [d([P] * k + [M] * nneg + [P] * (npos - k)) for k in range(0, npos + 1)]
+            return max(c), [max(c)]
+        if nneg > npos:
+            c = [d([M] * k + [P] * npos + [M] * (nneg - k)) for k in range(0, nneg + 1)]
+            return max(c), [max(c)]
+        c1 = [d([M] * k + [P] * npos + [M] * (nneg - k)) for k in range(0, nneg + 1)]
+        c2 = [d([P] * k + [M] * nneg + [P] * (npos - k)) for k in range(0, npos + 1)]
+        return max(c1), [max(c1), max(c2)]
+    best = None
+    if n0 >= 18:
+        for st in range(0, 7):
+            for en in range(0, 7):
+                mid = n0 - st - en
+                v = d([Z] * st + [P] * npos + [Z] * mid + [M] * nneg + [Z] * en)
+                best = v if best is None or v > best else best
+    else:
+        for mid in range(0, n0 + 1):
+            for st in range(0, n0 - mid + 1):
+                v = d([Z] * st + [P] * npos + [Z] * mid + [M] * nneg + [Z] * (n0 - st - mid))
+                best = v if best is None or v > best else best
+    return best, [best]
